@@ -737,6 +737,13 @@ func (f *frame) execConvert(in *ssa.Convert, st *State) {
 		_ = uf
 		id := f.allocID(st)
 		f.c.assume(st, fmt.Sprintf("(= %s (mkslice %s 0 (Str_len %s) (Str_len %s)))", n, id, x.T, x.T))
+		if sl, ok := in.Type().Underlying().(*types.Slice); ok {
+			if b, ok := sl.Elem().Underlying().(*types.Basic); ok && (b.Kind() == types.Uint8) {
+				// []byte(s): the fresh array holds the bytes of s
+				h := st.Heap(g.TE.CellHeap(sl.Elem()))
+				f.c.assume(st, fmt.Sprintf("(forall ((i Int)) (! (=> (and (<= 0 i) (< i (Str_len %s))) (= (select %s (elem %s i)) (Str_at %s i))) :pattern ((select %s (elem %s i)))))", x.T, h, id, x.T, h, id))
+			}
+		}
 		f.setVal(in, Val{T: n, Typ: in.Type()})
 	case from == SSlice && to == SStr:
 		// string(bytes): uninterpreted function of the current content; modelled as a fresh string with the right length
